@@ -1,6 +1,8 @@
 """
 C10 -- Flux-surface advection is a field-aligned shift along z.
 """
+import math
+
 import numpy as np
 from hypothesis import strategies as st
 
@@ -47,6 +49,32 @@ def cases(draw, tier):
         vs = sorted({dz * draw(st.integers(-12, 12)) for _ in range(nv)})
         dt = float(draw(st.sampled_from([-3, -2, -1, 1, 2, 5])))
         iota = 0.0
+        if draw(st.booleans()):
+            # the same on a twisted field: a foot exactly on a z node still has to follow the field line in theta.
+            # b_z(r) is irrational in general, so v is searched (deterministically, a few ulps around the quotient) such
+            # that the displacement ((-v) * b_z) * dt, evaluated as the code evaluates it, is bitwise m * dz
+            iota = draw(st.sampled_from([0.8, -0.8, 0.35]))
+            dt = draw(st.sampled_from([1.0, 2.0, 0.5])) * draw(st.sampled_from([-1.0, 1.0]))
+            found = []
+            for r_ in rs[:nv]:
+                b = float(1 / np.sqrt(1 + (np.float64(r_) * iota / R0) ** 2))
+                m = draw(st.integers(-12, 12))
+                target = -m * dz / dt
+                v_ = np.float64(target / b)
+                cands = [v_]
+                lo = hi = v_
+                for _ in range(4):
+                    lo, hi = np.nextafter(lo, -np.inf), np.nextafter(hi, np.inf)
+                    cands += [lo, hi]
+                hit = [float(c_) for c_ in cands if float(((-c_) * np.float64(b)) * dt) == m * dz]
+                if hit:
+                    found.append(hit[0])
+            if found:
+                vs = sorted(set(found))
+            else:
+                iota = 0.0
+                if abs(dt) < 1:
+                    dt = math.copysign(1.0, dt)
     else:
         R0 = draw(st.sampled_from([1.0, 10.0, 239.8081535]))
         dz = TWO_PI * R0 / nz
@@ -149,7 +177,10 @@ def predicate(case):
                 raise Violation("C10:%s:z-shift" % path, "step(roll(f)) != roll(step(f)): %.3e"
                                 % np.abs(rolled - np.roll(got, k, axis=1)).max())
             # exact circular shift
-            if case["exact"]:
+            if case["exact"] and case["iota"] != 0:
+                if zc == int(round(zc)) and np.count_nonzero(info["weights"]) == 1:
+                    labels.append("on-node-with-twist")
+            if case["exact"] and case["iota"] == 0:
                 kk = int(round(zc))
                 if zc != kk:
                     raise RuntimeError("generator error: displacement %r not a whole number of cells" % zc)
